@@ -470,11 +470,23 @@ func genC01(r *Rng, e *Emitter, n int) {
 			}
 			in2 := fmt.Sprintf("(%d %s)", int(l), sxCoords2(cs))
 			var kept geom.T
+			// sometimes the value then changes hands (Swap with a geometry of another structure): it is
+			// observed in the geometry that received it
+			var swapWith [][]geom.Coord
+			if l.Stride() > 0 && r.chance(1, 4) {
+				swapWith = (&shapeCtx{r: r, stride: l.Stride()}).coords2()
+				e.tally("swapped-after-set")
+			}
 			e.emit(op, in2, guard(func() string {
 				if kind == 3 {
 					g, err := pg0.SetCoords(cs)
 					if err != nil {
 						return rejected(err, pg0)
+					}
+					if swapWith != nil {
+						o := geom.NewPolygon(l).MustSetCoords(swapWith)
+						o.Swap(g)
+						g = o
 					}
 					kept = g
 					rb := guard(func() string { return "(ok " + sxCoords2(g.Coords()) + ")" })
@@ -483,6 +495,11 @@ func genC01(r *Rng, e *Emitter, n int) {
 				g, err := mls0.SetCoords(cs)
 				if err != nil {
 					return rejected(err, mls0)
+				}
+				if swapWith != nil {
+					o := geom.NewMultiLineString(l).MustSetCoords(swapWith)
+					o.Swap(g)
+					g = o
 				}
 				kept = g
 				rb := guard(func() string { return "(ok " + sxCoords2(g.Coords()) + ")" })
@@ -544,10 +561,20 @@ func genC01(r *Rng, e *Emitter, n int) {
 				r.reuse(mp0, l.Stride(), leaves3(cs))
 				e.tally("receiver-reused")
 			}
+			var swapWith3 [][][]geom.Coord
+			if l.Stride() > 0 && r.chance(1, 4) {
+				swapWith3 = (&shapeCtx{r: r, stride: l.Stride()}).coords3()
+				e.tally("swapped-after-set")
+			}
 			e.emit("C01.set.mpoly", fmt.Sprintf("(%d %s)", int(l), sxCoords3(cs)), guard(func() string {
 				g, err := mp0.SetCoords(cs)
 				if err != nil {
 					return rejected(err, mp0)
+				}
+				if swapWith3 != nil {
+					o := geom.NewMultiPolygon(l).MustSetCoords(swapWith3)
+					o.Swap(g)
+					g = o
 				}
 				rb := guard(func() string { return "(ok " + sxCoords3(g.Coords()) + ")" })
 				return "(ok (" + sxG3(g.Layout(), g.Stride(), g.FlatCoords(), g.Endss(), g.SRID()) + " " + rb + "))"
